@@ -113,6 +113,7 @@ fn main() {
             }
             std::process::exit(0);
         }
+        #[cfg(not(feature = "nohook"))]
         "c08-encfile" => {
             // debugging aid: what does the encrypted-file stage's file #i load to?
             let i: u64 = args.get(2).and_then(|x| x.parse().ok()).unwrap_or(0);
@@ -125,6 +126,7 @@ fn main() {
             }
             std::process::exit(0);
         }
+        #[cfg(not(feature = "nohook"))]
         "c08-filtered" => {
             props::c08::filtered_child_main(&args[2..]);
             std::process::exit(0);
